@@ -29,6 +29,7 @@ type Step struct {
 	Code    string   `json:"code"`
 	Txid    int64    `json:"txid"`
 	Applied bool     `json:"applied"`
+	Flavour *int     `json:"flavour,omitempty"` // which store error a crash step uses (replays of a recorded execution)
 	LL      int64    `json:"ll"`
 	LT      int64    `json:"lt"`
 	SL      int      `json:"sl"`
@@ -371,14 +372,20 @@ func (x *world) decide(d vstore.Decision) {
 
 // crash stops the current commander: through the store failure the code itself
 // treats as fatal when a batch is in flight, by abandoning it otherwise.
-func (x *world) crash(applied bool) bool {
+func (x *world) crash(applied bool, forced *int) bool {
 	if applied && x.atGate == nil {
 		x.nSkipped++
+		x.emit(map[string]any{"ev": "crash-skipped"})
 		return false
 	}
+	flavour := -1
 	if x.atGate != nil {
-		x.store.FailWith = failureFlavours[flavourCounter%len(failureFlavours)]
+		flavour = flavourCounter % len(failureFlavours)
 		flavourCounter++
+		if forced != nil && *forced >= 0 {
+			flavour = *forced % len(failureFlavours)
+		}
+		x.store.FailWith = failureFlavours[flavour]
 		if applied {
 			x.decide(vstore.WriteThenDie)
 		} else {
@@ -386,11 +393,11 @@ func (x *world) crash(applied bool) bool {
 		}
 		select {
 		case <-x.runDone: // job.Runner panicked, as designed
-		case <-time.After(400 * time.Millisecond):
+		case <-time.After(1500 * time.Millisecond):
 			// the commander survived a failing InsertLogs: no crash happened. The execution
 			// goes on with the same commander; whatever it acknowledges now is judged.
 			x.survived = true
-			x.emit(map[string]any{"ev": "storefail-survived", "applied": applied})
+			x.emit(map[string]any{"ev": "storefail-survived", "applied": applied, "flavour": flavour})
 			return false
 		}
 	}
@@ -402,7 +409,7 @@ func (x *world) crash(applied bool) bool {
 			x.emit(map[string]any{"ev": "resp", "p": p, "st": "lost", "txid": int64(-1), "code": "", "dry": ps.req.Dry, "ik": ps.req.Ik, "kind": ps.req.Kind})
 		}
 	}
-	x.emit(map[string]any{"ev": "crash", "applied": applied})
+	x.emit(map[string]any{"ev": "crash", "applied": applied, "flavour": flavour})
 	x.gen++
 	return x.startGen() == nil
 }
